@@ -27,9 +27,9 @@ func init() {
 	register(&Rule{
 		Name:    "LEX-NOT-PRODUCT",
 		IR:      "ast",
-		Props:   []string{"C08", "C03"},
+		Props:   []string{"C08", "C03", "C06"},
 		Floor:   10,
-		FloorBy: map[string]int{"C08": 1, "C03": 8},
+		FloorBy: map[string]int{"C08": 1, "C03": 8, "C06": 10},
 		Doc: "in the methods of a search iterator that take a target, no condition compares the target with the iterator's position component by component with && " +
 			"(the product order): composite keys are ordered lexicographically (instances: every such method of every search.Iterator implementation)",
 		Run: runLexNotProduct,
@@ -40,9 +40,9 @@ func runLexNotProduct(c *Ctx) []Obligation {
 	var out []Obligation
 	for _, it := range c.gIteratorTypes() {
 		info := it.pkg.TypesInfo
-		props := []string{"C03"}
+		props := []string{"C03", "C06"}
 		if relPkg(it.pkg) == "ingest/compact" {
-			props = []string{"C08"}
+			props = []string{"C08", "C06"}
 		}
 		var names []string
 		for n := range it.methods {
